@@ -167,7 +167,13 @@ impl ast::Visit for Visitor<'_, '_> {
                 }
             },
 
-            ast::StmtKind::CallSub { .. } => unimplemented!("need to check arg types against signature"),
+            ast::StmtKind::CallSub { func, .. } => {
+                // (argument types would have to be checked against the signature once this is implemented)
+                self.errors.set(self.emit(error!(
+                    message("explicit sub call statements are not supported"),
+                    primary(func, "unsupported sub call"),
+                )));
+            },
 
             // (these hold expressions that must be integers)
             ast::StmtKind::InterruptLabel(expr) => self.visit_cond(expr),
